@@ -388,6 +388,51 @@ def rule_r8(ctx) -> RuleResult:
     return rr
 
 
+def rule_r9(ctx) -> RuleResult:
+    """'marks exactly the closure': the classifier has to see every page of the Template namespace -- redirect pages
+    included (a flagged redirect marks its target through the redirect propagation, and a template that includes the
+    redirect by its name is marked through the inclusion map).  Decided: the loop that applies the classifier iterates over
+    get_all_pages() restricted by nothing but the namespace (every other filter argument absent or equal to its default),
+    and nothing skips an element before the classifier is applied to it."""
+    rr = RuleResult("C17.R9", "the classifier is applied to every page of the Template namespace", min_instances=2)
+    fn = ctx.fn(FN)
+    loops = [n for n in walk_no_nested(fn) if isinstance(n, ast.For)
+             and any(isinstance(c, ast.Call) and unparse(c.func) == "check_template_func" for b in n.body for c in ast.walk(b))]
+    if len(loops) != 1:
+        raise AnalysisError("analyze_templates: the loop that applies check_template_func was not found")
+    lp = loops[0]
+    it = lp.iter
+    if isinstance(it, ast.Name):
+        it = _resolve(fn, it.id, lp.lineno)
+    if not (isinstance(it, ast.Call) and isinstance(it.func, ast.Attribute) and it.func.attr == "get_all_pages"):
+        raise AnalysisError("analyze_templates: the classifier loop does not iterate over get_all_pages(...) directly (inconclusive)")
+    gap = ctx.fn("core.Wtp.get_all_pages")
+    params = [a.arg for a in gap.args.args[1:]]
+    defaults = dict(zip(params[len(params) - len(gap.args.defaults):], gap.args.defaults))
+    passed = dict(zip(params, it.args))
+    passed.update({k.arg: k.value for k in it.keywords if k.arg})
+    ok = True
+    for p_, v in passed.items():
+        if p_ == "namespace_ids":
+            continue
+        d = defaults.get(p_)
+        if d is None or unparse(v) != unparse(d):
+            ok = False
+            rr.bad(Finding("C17.R9", CORE, FN, unparse(lp.iter)[:80],
+                           "the scan is restricted by {}={}: pages excluded by it are never classified, so a flagged redirect page, its "
+                           "target and the templates that include it by the redirect's name stay unmarked".format(p_, unparse(v)), lp.lineno))
+    if ok:
+        rr.ok(FN, "scan: " + unparse(it)[:60])
+    # nothing skips an element before the classifier sees it
+    idx = next(i for i, b in enumerate(lp.body) if any(isinstance(c, ast.Call) and unparse(c.func) == "check_template_func" for c in ast.walk(b)))
+    skips = [x for b in lp.body[:idx] for x in ast.walk(b) if isinstance(x, (ast.Continue, ast.Break))]
+    if skips:
+        rr.bad(Finding("C17.R9", CORE, FN, "continue/break before check_template_func", "some pages are skipped before the classifier is applied", skips[0].lineno))
+    else:
+        rr.ok(FN, "no page is skipped before the classifier is applied")
+    return rr
+
+
 def run(ctx) -> list:
     from ..core.report import shared
     from . import c10
@@ -397,4 +442,4 @@ def run(ctx) -> list:
                 "a later analysis on the same context skips templates it wrongly believes to be marked", min_instances=3)
     r7 = shared(c10.rule_r11(ctx, sf), "C17.R7", "the work list finds every stored template by its stored title (shared with C10.R11)",
                 "a template whose stored title the reader-side normalisation changes is never reached by the propagation", min_instances=1)
-    return [rule_r1(ctx), rule_r2(ctx), rule_r3(ctx, sf), rule_r4(ctx, sf), rule_r5(ctx, sf), r6, r7, rule_r8(ctx)]
+    return [rule_r1(ctx), rule_r2(ctx), rule_r3(ctx, sf), rule_r4(ctx, sf), rule_r5(ctx, sf), r6, r7, rule_r8(ctx), rule_r9(ctx)]
